@@ -120,17 +120,41 @@ func TestC01(t *testing.T) {
 			}
 		})
 
-		// FindVoteResult with the expanded vote list, two orders
+		// FindVoteResult with the expanded vote list, two orders; third pass:
+		// the LAST fact is keyed by the empty string (any string is a vote key)
 		vs := votes(counts, nil)
-		for o := 0; o < 2; o++ {
+		for o := 0; o < 3; o++ {
 			s := append([]string{}, vs...)
 			if o == 1 {
 				for i, j := 0, len(s)-1; i < j; i, j = i+1, j-1 {
 					s[i], s[j] = s[j], s[i]
 				}
 			}
+			emptyKeyed := -1
+			if o == 2 {
+				if len(counts) == 0 {
+					continue
+				}
+				emptyKeyed = len(counts) - 1
+				name := fmt.Sprintf("F%d", emptyKeyed)
+				for i := range s {
+					if s[i] == name {
+						s[i] = ""
+					}
+				}
+			}
 			r.Guard("FindVoteResult", in, func() {
 				got, key := base.FindVoteResult(in.Q, in.R, s)
+				if emptyKeyed >= 0 {
+					r.Count("calls_with_empty_string_vote_key", 1)
+					if got == base.VoteResultMajority && key == "" {
+						key = fmt.Sprintf("F%d", emptyKeyed)
+					} else if got == base.VoteResultMajority && key == fmt.Sprintf("F%d", emptyKeyed) {
+						key = "?"
+					}
+					checkResult(r, "FindVoteResult:empty-string-key", in, want, maj, got, key)
+					return
+				}
 				checkResult(r, "FindVoteResult", in, want, maj, got, key)
 			})
 		}
